@@ -112,7 +112,8 @@ class StubHelper:
         import astropy.units as u
 
         rv_unit = rv_unit if rv_unit is not None else u.km / u.s
-        self.table = {int(k): float(v) for k, v in dict(table).items()}
+        # table=None: likelihood is a fixed deterministic function of the row (for libraries whose rows are not id-coded)
+        self.table = None if table is None else {int(k): float(v) for k, v in dict(table).items()}
         self.packed_order = ["P", "e", "omega", "M0", "s"]
         self.internal_units = {
             "P": u.day, "e": u.one, "omega": u.radian, "M0": u.radian,
@@ -126,6 +127,11 @@ class StubHelper:
     def row_id(P):
         return int(round(float(P) - 1.0))
 
+    def _ll(self, row, i):
+        if self.table is not None:
+            return self.table[i]
+        return -float((row[0] * 1.37 + row[1] * 3.1 + row[2] * 0.7 + row[3] * 0.3) % 3.0)
+
     def batch_marginal_ln_likelihood(self, chunk):
         chunk = np.asarray(chunk)
         assert chunk.ndim == 2 and chunk.shape[1] == 5, chunk.shape
@@ -134,7 +140,7 @@ class StubHelper:
         CALL_LOG.append(("ll", ids, [tuple(float(x) for x in r) for r in chunk]))
         if self.fail_on is not None:
             self.fail_on("ll", ids)
-        return np.array([self.table[i] for i in ids], dtype=float)
+        return np.array([self._ll(r, i) for r, i in zip(chunk, ids)], dtype=float)
 
     def batch_get_posterior_samples(self, chunk, n_linear, rng):
         chunk = np.asarray(chunk)
@@ -151,7 +157,7 @@ class StubHelper:
             for j in range(n_linear):
                 out[k, :5] = r
                 out[k, 5:] = lin[j]
-                ll[k] = self.table[i]
+                ll[k] = self._ll(r, i)
                 k += 1
         return out, ll
 
